@@ -455,6 +455,12 @@ func c09Strata() []*gast.Grammar {
 			r("T", gast.Rec(gast.A(gast.Lab("v", gast.Ref("N")), 2, mon.Spec{R: 3}), gast.Star(gast.Dot()), "L1")), r("N", gast.A(gast.Plus(gast.Cl(&gast.ClassSpec{Ranges: [][2]rune{{'0', '9'}}})), 3, mon.Spec{R: 2}))),
 		mk(r("S", gast.A(gast.S(gast.Lab("v", gast.Ref("N")), gast.Star(gast.S(gast.L(","), gast.Ref("T"))), gast.Lab("w", gast.Opt(gast.Ref("T")))), 1, mon.Spec{})),
 			r("T", gast.Rec(gast.S(gast.Lab("v", gast.Cl(gast.Chars("ab"))), gast.Lab("w", gast.C(gast.L("!"), gast.Thr("L1")))), gast.A(gast.Lab("v", gast.L("?")), 2, mon.Spec{}), "L1")), r("N", gast.A(gast.Plus(gast.Cl(&gast.ClassSpec{Ranges: [][2]rune{{'0', '9'}}})), 3, mon.Spec{R: 2}))),
+		// a greedy repetition directly followed by an element with the same operand (e* e, e* e+, e? e+,
+		// e+ e): order matters in a PEG - the repetition leaves nothing for its neighbour
+		mk(r("S", gast.C(act(gast.S(gast.Star(gast.Ref("D")), gast.Ref("D"), gast.L("L")), 1), act(gast.S(gast.Opt(gast.L("_")), gast.Plus(gast.L("_")), gast.Ref("D")), 2),
+			act(gast.S(gast.Star(gast.Ref("D")), gast.Plus(gast.Ref("D")), gast.L("!")), 3), act(gast.S(gast.Plus(gast.Cl(gast.Chars("ab"))), gast.Cl(gast.Chars("ab")), gast.L(";")), 4),
+			act(gast.S(gast.Ref("D"), gast.Star(gast.Ref("D")), gast.Opt(gast.Ref("D")), gast.Star(gast.L("_")), gast.Star(gast.L("_"))), 5), gast.Star(gast.Dot()))),
+			r("D", gast.Cl(&gast.ClassSpec{Ranges: [][2]rune{{'0', '9'}}}))),
 		// keyword idiom: literals with and without i next to each other, some without cased characters
 		mk(r("S", gast.S(gast.Li("select"), gast.L(" "), gast.Ref("N"), gast.L(" "), gast.Li("from"), gast.L(" "), gast.Ref("N"), gast.Opt(gast.S(gast.L(" "), gast.Li("order"), gast.Li(" by"), gast.L(" "), gast.Ref("N"))), gast.L(";"))),
 			r("N", gast.Plus(gast.Cl(gast.Chars("ab"))))),
